@@ -157,6 +157,31 @@ def suffixes(ctx, prog, A):
             lv |= {l[1] for l in P.leaves(P.expr(b.term.ops[0])) if l[0] == 'load'}
     ctx.ob('C17.suffix', 'suffix_xform honours chk_compr and the suffix length', f.loc(),
            any(x.endswith('.chk_compr') for x in lv) and any(x.endswith('.compr_len') for x in lv), str(sorted(lv)))
+    # the tail comparison is applied to every name at least as long as the suffix (a name that *is* the suffix
+    # included) and to no shorter one (len - compr_len must not wrap)
+    tail = [c for c in sc if strip_casts(P.expr(c.ops[1]))[0] == 'load' and
+            addr_key(strip_casts(P.expr(c.ops[1]))[1]).endswith('.compr')]
+    okl = False
+    seen = []
+    if tail:
+        for b, e, pol in guards(f, P, tail[0].block.name):
+            c, p2 = peel_cond(e)
+            cn = cmp_norm(c)
+            if cn is None:
+                continue
+            pred, x, y = cn
+            kx = render(strip_casts(x))
+            ky = render(strip_casts(y))
+            if 'compr_len' in kx or 'compr_len' in ky:
+                eff = pol == p2
+                seen.append('%s %s %s (%s)' % (kx[:30], pred, ky[:30], eff))
+                if 'compr_len' in ky and 'strlen' in kx:
+                    okl = (pred == 'uge' and eff) or (pred == 'ult' and not eff)
+                elif 'compr_len' in kx and 'strlen' in ky:
+                    okl = (pred == 'ule' and eff) or (pred == 'ugt' and not eff)
+    ctx.ob('C17.suffix', 'the suffix test applies to every name of length >= the suffix length (strlen(name) >= '
+           'compr_len), so a name consisting of the suffix alone counts as compressed', f.loc(tail[0]) if tail else f.loc(),
+           okl, '; '.join(seen))
     # compression name: operand + ".bz2"
     oi = prog.func('main', 'output_init')
     Po = A.cg.prov(oi)
